@@ -20,6 +20,11 @@ SCRIPTS = {
     "hs_only": {"c": [{"op": "ping", "uid": 1}]},
     "echo": {"c": [W(0, 3000, True)], "s": [W(0, 3000, True, g=("rxfin", 0))]},
     "early_data_like": {"c": [W(0, 12000, True, g="now")], "s": [W(1, 100, True)]},
+    # the server's first flight is smaller than one datagram (small certificate / resumption) and is padded
+    # at the datagram's end; the application then writes 0.5-RTT data that was NOT queued when the flight
+    # was built: every byte of the first datagram, padding included, counts against the 3x budget
+    "server_half_rtt": {"c": [W(0, 10)], "s": [W(1, 9000, True, g="now")]},
+    "zr_server_half_rtt": {"c": [W(0, 10, g="pre")], "s": [W(1, 9000, True, g="now")]},
     "server_close_early": {"c": [W(0, 10)], "s": [{"op": "close", "code": 0, "reason": "bye", "g": "now"}]},
     # resumption with early data: the first client datagram coalesces Initial + 0-RTT
     "zr_early_request": {"c": [W(0, 300, True, g="now")], "s": [W(0, 9000, True, g=("rx", 0, 1))]},
@@ -82,6 +87,10 @@ def scenarios(tier, seed):
     out["hs|quantum"] = {"script": "hs_only", "cfg": {"quantum": True, "chain": "chain2"}}
     out["hs|v2"] = {"script": "hs_only", "cfg": {"version": V2, "chain": "bigchain"}}
     out["hs|retry"] = {"script": "hs_only", "cfg": {"retry": True, "chain": "bigchain"}}
+    for ch in ("ed25519", "p256"):
+        for sm in (1200, 1400):
+            out["halfrtt|%s|s%d" % (ch, sm)] = {"script": "server_half_rtt", "cfg": {"chain": ch, "s_mds": sm}}
+    out["halfrtt|resume"] = {"script": "zr_server_half_rtt", "cfg": {}, "resume": True}
     out["hs|compat"] = {"script": "hs_only", "cfg": {"version": V1, "c_supported": [V2, V1], "s_supported": [V2, V1], "chain": "bigchain"}}
     if tier == "thorough":
         for c in grid:
